@@ -45,6 +45,7 @@ def hook(hr, step, op, entry, anoms, ctx):
         return acc
     failed_so_far = set()
     failed_at_start = {}
+    forced_cmd = bool(entry.get('argv')) and entry['argv'][0] == 'redo'
     for f in recs:
         if f[0] == 'S' and len(f) >= 3 and f[1] in p.targets:
             failed_at_start[(f[1], f[2])] = set(failed_so_far)
@@ -53,7 +54,13 @@ def hook(hr, step, op, entry, anoms, ctx):
                 failed_so_far.add(f[1])
             else:
                 bad = strict_closure(f[1], set()) & failed_at_start.get((f[1], f[2]), set())
-                if bad:
+                if bad and ctx['done'].get(f[1]) is True and forced_cmd:
+                    # The reference model, which follows redo's "checked in this run" memo, agrees that the script succeeds: an
+                    # intermediate target had been found clean earlier in this run, before `redo` force-rebuilt the (then failing)
+                    # target below it, and is not looked at again.  Known finding (same root as the C02 one), keyed.
+                    out.append(Anomaly(cls='swallowed', key='succeeded-above-a-failed-forced-rebuild:intermediate-checked-earlier-in-the-run', cont=True,
+                                       what='%s exited 0 after %s had failed in this run: an intermediate had been checked before the forced rebuild' % (f[1], sorted(bad))))
+                elif bad:
                     out.append(Anomaly(cls='swallowed', key='succeeded-above-a-target-that-failed-in-this-run',
                                        what='%s was started after %s had failed in this run and exited 0 although it depends on it' % (f[1], sorted(bad))))
     # (6) per process: no job is started after a failure is known (without --keep-going)
@@ -86,7 +93,7 @@ def nontrivial(r):
 def mine(a):
     # the two keyed C02 findings (forced rebuild after a check in the same run; extra out-of-band edges) are
     # reported under C02/C03, not here
-    return not a.get('cont')
+    return not a.get('cont') or str(a.get('key', '')).startswith('succeeded-above-a-failed-forced-rebuild:')
 
 
 def lock_fail_case(item):
